@@ -106,6 +106,18 @@ def run(ctx):
         and isinstance(k.value.args[0], ast.Constant) and k.value.args[0].value == "deps" for k in c.keywords) for c in _calls(hc.node))
     r3.check(ok, f"{hc.module.relpath}::{hc.qual}", "deps=message.pop('deps')", "the server does not hand the message's deps to the scheduler", hc.where)
 
+    from .evalhelpers import local_client_witness
+    _n, cdiffs, cunsup = local_client_witness(ctx)
+    if cunsup is None:
+        cd = [d for d in cdiffs if "cancel" not in d]
+        r3.check(not cd, "src/gwf/backends/local.py::LocalOps.submit_target::request", "submit_target sends one flushed enqueue_task with all prerequisite ids and returns the pool's id",
+                 "; ".join(cd[:2]), lo.where)
+    from .evalhelpers import server_session_witness
+    n_w, diffs, unsup = server_session_witness(ctx)
+    diffs = [d for d in diffs if "enqueue_task" in d]
+    if unsup is None:
+        r3.check(not diffs, f"{hc.module.relpath}::{hc.qual}::session", "an enqueue_task request reaches scheduler.enqueue_task with every field (deps included) under its own name",
+                 "; ".join(diffs[:2]), hc.where)
     r4 = ctx.rule("R4", "local pool honours the prerequisites: wait for all, start only if all completed (C11)", min_instances=2)
     from .c11 import run as c11_run
     sub = type(ctx)(ctx.prop, ctx.repo, ctx.index, ctx.ev, ctx.tier)
